@@ -8,6 +8,9 @@ from pyvc.verify import verify_function
 prog = Program(); reg = Registry(prog)
 VERIF = os.path.dirname(os.path.dirname(os.path.abspath(__file__)))
 
+KNOWN = json.load(open(os.path.join(VERIF, "known_findings.json"))).get("findings", [])
+
+
 def work(t):
     q, part = t
     rep = verify_function(prog, reg, q, part=part)
@@ -35,6 +38,9 @@ if __name__ == "__main__":
                     f["proved"] += 1
                     if tactic and tactic != "direct":
                         hints.setdefault(name, tactic)
+                elif any(k.get("status") == "known" and k.get("obligation") and k["obligation"] in name for k in KNOWN):
+                    f["obligations"] -= 1      # a listed known finding: not part of the verified baseline
+                    f.setdefault("known_findings", []).append(name)
                 else:
                     bad.append((name, result))
     for q, f in funcs.items():
